@@ -192,6 +192,27 @@ func streamCase(s *cases.Set, pk *pkg, up bool, cs []cmd, kind string) {
 			return cq.Ok(cmdsTerm(pk, b))
 		})
 	}
+	drain(s, false)
+}
+
+// Long sequences are expensive to elaborate in Coq; they are queued and emitted one every
+// `spread` cases so that they are distributed over the shards (which are evaluated in parallel).
+var pending []func()
+var draining bool
+
+const spread = 60
+
+func drain(s *cases.Set, all bool) {
+	if draining {
+		return
+	}
+	draining = true
+	for len(pending) > 0 && (all || s.Len()%spread == 0) {
+		f := pending[0]
+		pending = pending[1:]
+		f()
+	}
+	draining = false
 }
 
 // cmdSize is Command.Size() of one command
@@ -213,7 +234,7 @@ func ladderStream(r *cq.RNG, pk *pkg, up bool, target int, only string) []cmd {
 	var out []cmd
 	total := 0
 	misses := 0
-	for total < target && misses < 40 {
+	for total < target && misses < 200 {
 		g := gs[r.Intn(len(gs))]
 		if only != "" {
 			for _, x := range gs {
@@ -223,7 +244,6 @@ func ladderStream(r *cq.RNG, pk *pkg, up bool, target int, only string) []cmd {
 			}
 		}
 		if g.name == "DataFragment" {
-			misses++
 			continue
 		}
 		c := cmd{g.cid, g.mk(r, inRange)}
@@ -379,6 +399,7 @@ func decodeCase(s *cases.Set, pk *pkg, up, single bool, data []byte, kind string
 	}
 	s.Add(cases.Case{Term: fmt.Sprintf("CDecode %d %s %s %s %s", pk.id, cq.Bool(up), cq.Bool(single), cq.Bytes(data), o),
 		Key: short(fmt.Sprintf("decode:%s:%s:%s:%x", pk.name, dirName(up), sg, data)), Kind: kind, Nontrivial: true, Replay: rp})
+	drain(s, false)
 }
 
 func keyOutcome(f func() (lorawan.AES128Key, error)) string {
@@ -494,6 +515,38 @@ func main() {
 		streamCase(s, fwp, true, []cmd{{4, mkUpgradeAns(3, nil)}}, "corpus")
 		streamCase(s, fwp, true, []cmd{{4, mkUpgradeAns(3, u32p(262657))}}, "corpus")
 		streamCase(s, fwp, true, []cmd{{4, mkUpgradeAns(1, u32p(262657))}}, "corpus")
+	}
+
+	// ---- sequence length ladder: many commands, total encoded size around and far beyond 255 ----
+	for _, pk := range pkgs {
+		for _, up := range []bool{false, true} {
+			for _, target := range []int{200, 254, 255, 256, 257, 300, 512, 1000, 4096} {
+				{
+					cs := ladderStream(r, pk, up, target, "")
+					pk, up := pk, up
+					pending = append(pending, func() { streamCase(s, pk, up, cs, "sequence-long-"+pk.name) })
+				}
+			}
+			// the largest payload type of the direction repeated
+			big := map[string]string{"clocksync:false": "AppTimeAns", "clocksync:true": "AppTimeReq", "multicastsetup:false": "McGroupSetupReq", "multicastsetup:true": "McGroupStatusAns",
+				"fragmentation:false": "FragSessionSetupReq", "fragmentation:true": "FragSessionStatusAns", "firmwaremanagement:false": "DevDeleteImageReq", "firmwaremanagement:true": "DevVersionAns"}[fmt.Sprintf("%s:%v", pk.name, up)]
+			for _, target := range []int{255, 260, 330, 700} {
+				{
+					cs := ladderStream(r, pk, up, target, big)
+					pk, up := pk, up
+					pending = append(pending, func() { streamCase(s, pk, up, cs, "sequence-long-"+pk.name) })
+				}
+			}
+			if thorough {
+				for i := 0; i < 40; i++ {
+					{
+						cs := ladderStream(r, pk, up, 100+r.Intn(3000), "")
+						pk, up := pk, up
+						pending = append(pending, func() { streamCase(s, pk, up, cs, "sequence-long-"+pk.name) })
+					}
+				}
+			}
+		}
 	}
 
 	// ---- single-byte payloads: every in-range value, every byte into the decoder ----
@@ -652,25 +705,7 @@ func main() {
 		}
 	}
 
-	// ---- sequence length ladder: many commands, total encoded size around and far beyond 255 ----
-	for _, pk := range pkgs {
-		for _, up := range []bool{false, true} {
-			for _, target := range []int{200, 254, 255, 256, 257, 300, 512, 1000, 4096} {
-				streamCase(s, pk, up, ladderStream(r, pk, up, target, ""), "sequence-long-"+pk.name)
-			}
-			// the largest payload type of the direction repeated
-			big := map[string]string{"clocksync:false": "AppTimeAns", "clocksync:true": "AppTimeReq", "multicastsetup:false": "McGroupSetupReq", "multicastsetup:true": "McGroupStatusAns",
-				"fragmentation:false": "FragSessionSetupReq", "fragmentation:true": "FragSessionStatusAns", "firmwaremanagement:false": "DevDeleteImageReq", "firmwaremanagement:true": "DevVersionAns"}[fmt.Sprintf("%s:%v", pk.name, up)]
-			for _, target := range []int{255, 260, 330, 700} {
-				streamCase(s, pk, up, ladderStream(r, pk, up, target, big), "sequence-long-"+pk.name)
-			}
-			if thorough {
-				for i := 0; i < 40; i++ {
-					streamCase(s, pk, up, ladderStream(r, pk, up, 100+r.Intn(3000), ""), "sequence-long-"+pk.name)
-				}
-			}
-		}
-	}
+	drain(s, true)
 
 	// ---- one variable decoded into repeatedly; the caller keeps copies ----
 	for _, pk := range pkgs {
